@@ -79,8 +79,24 @@ func closeBodies() []closeClass {
 		{"reason-U+FFFD", code(1000, "a\uFFFDb"), vValid},
 		{"reason-U+10FFFF-NUL", code(1001, "\U0010FFFF\x00"), vValid},
 		{"code1011", code(1011, ""), vValid},
+		// reasons of the maximal length (125-byte close payload)
+		{"123-truncated-utf8-at-the-end", append(code(1000, string(long[:121])), 0xe2, 0x82), vViolation},
+		{"123-ends-in-lone-continuation-byte", append(code(1001, string(long[:122])), 0x82), vViolation},
+		{"123-multibyte-at-the-end", code(1000, string(long[:120])+"\u20ac"), vValid},
+		{"122-truncated-utf8", append(code(1000, string(long[:120])), 0xf0, 0x9f), vViolation},
 	}
 	return cs
+}
+
+// badCloseClasses lists the indices of the close bodies that are violations.
+func badCloseClasses() []int {
+	var out []int
+	for i, cc := range closeBodies() {
+		if cc.verdict == vViolation {
+			out = append(out, i)
+		}
+	}
+	return out
 }
 
 // classifyCell is the independent RFC 6455 (and RFC 7692 for RSV1) verdict
@@ -296,6 +312,14 @@ func drainConn(conn *websocket.Conn, maxMsgs, extra int) (msgs []cellRead, final
 	}
 	if final != nil {
 		for i := 0; i < extra; i++ {
+			// like a retry loop: every other later read first arms a new read
+			// deadline (a future one, or none)
+			switch i % 4 {
+			case 1:
+				conn.SetReadDeadline(time.Now().Add(time.Hour))
+			case 3:
+				conn.SetReadDeadline(time.Time{})
+			}
 			_, _, err := conn.NextReader()
 			if err == nil {
 				afterData = true
@@ -653,7 +677,7 @@ func genViolation(t *rapid.T, inside, server, comp bool) Cell {
 				c.Op = 8
 				c.Fin = true
 				c.Len = 0
-				c.Close = rapid.IntRange(4, 15).Draw(t, "badclose")
+				c.Close = rapid.SampledFrom(badCloseClasses()).Draw(t, "badclose")
 			}
 		}
 	}
@@ -766,7 +790,16 @@ func checkC04Hist(c HistCase, o *Obs) error {
 	for i, m := range model.Msgs {
 		lens[i] = len(m.Payload)
 	}
+	afterReadError = func(cn *websocket.Conn, i int) {
+		switch i % 4 {
+		case 1:
+			cn.SetReadDeadline(time.Now().Add(time.Hour))
+		case 3:
+			cn.SetReadDeadline(time.Time{})
+		}
+	}
 	rt := RunRead(conn, c.Reads, nComplete+3, lens, 5)
+	afterReadError = nil
 
 	if len(rt.Msgs) < nComplete {
 		return fmt.Errorf("%d messages were completed before the violating frame, only %d delivered (final error %v)", nComplete, len(rt.Msgs), rt.Final)
